@@ -21,7 +21,7 @@ def main():
         keep = set(sys.argv[sys.argv.index("--only") + 1].split(","))
         seeds = [s_ for s_ in seeds if s_[:3] in keep]
     rows = []
-    with cf.ThreadPoolExecutor(max_workers=3) as ex:
+    with cf.ThreadPoolExecutor(max_workers=int(os.environ.get("VF_SEED_WORKERS", "3"))) as ex:
         futs = [ex.submit(one, s, ALL if matrix else [json.load(open(os.path.join(HERE, "seeded", s, "meta.json")))["property"]], suite) for s in seeds]
         for f in futs:
             sid, res = f.result()
